@@ -222,6 +222,76 @@ func direct(kind string, iter int) {
 	}
 }
 
+// joinRace: stream-table JOIN with table updates racing against row processing (C16: "concurrent table
+// updates during processing"); every delivered row must carry a location that the table held at some time.
+func joinRace(iter int) {
+	s := streamsql.New(streamsql.WithLogger(logger.NewDiscardLogger()))
+	sql := "SELECT id, m.loc AS loc FROM stream LEFT JOIN meta m ON dev = m.dev"
+	if iter%2 == 1 {
+		sql = "SELECT s.id AS id, m.loc AS loc FROM stream s JOIN meta m ON s.dev = m.dev AND s.site = m.site"
+	}
+	if err := s.Execute(sql); err != nil {
+		fmt.Println("EXECUTE ERROR join", err)
+		os.Exit(3)
+	}
+	tbl, err := s.RegisterTable("meta", []map[string]any{{"dev": 1, "site": "x", "loc": "L0"}, {"dev": 2, "site": "x", "loc": "L0"}})
+	if err != nil {
+		fmt.Println("REGISTER ERROR", err)
+		os.Exit(3)
+	}
+	var mu sync.Mutex
+	bad := ""
+	s.AddSyncSink(func(rows []map[string]any) {
+		mu.Lock()
+		for _, r := range rows {
+			if l, ok := r["loc"].(string); r["loc"] != nil && (!ok || len(l) < 2 || l[0] != 'L') {
+				bad = fmt.Sprint("join delivered a location the table never held: ", r)
+			}
+		}
+		mu.Unlock()
+	})
+	var wg sync.WaitGroup
+	wg.Add(4)
+	go func() {
+		defer wg.Done()
+		for i := 0; i < 8; i++ {
+			s.Emit(map[string]any{"id": i, "dev": 1 + i%2, "site": "x"})
+		}
+	}()
+	go func() {
+		defer wg.Done()
+		for i := 0; i < 8; i++ {
+			s.EmitSync(map[string]any{"id": 100 + i, "dev": 1 + i%2, "site": "x"})
+		}
+	}()
+	go func() {
+		defer wg.Done()
+		for i := 1; i <= 6; i++ {
+			s.UpsertTable("meta", map[string]any{"dev": 1 + i%2, "site": "x", "loc": fmt.Sprintf("L%d", i)})
+		}
+	}()
+	go func() {
+		defer wg.Done()
+		for i := 0; i < 3; i++ {
+			if iter%2 == 1 {
+				tbl.Delete([]any{2, "x"})
+			} else {
+				tbl.Delete(2)
+			}
+			s.UpsertTable("meta", map[string]any{"dev": 2, "site": "x", "loc": "Lx"})
+		}
+	}()
+	wg.Wait()
+	time.Sleep(2 * time.Millisecond)
+	s.Stop()
+	mu.Lock()
+	defer mu.Unlock()
+	if bad != "" {
+		fmt.Println("WRONG RESULT UNDER CONCURRENCY:", bad)
+		os.Exit(1)
+	}
+}
+
 func main() {
 	iters := 15
 	if len(os.Args) > 1 {
@@ -233,6 +303,16 @@ func main() {
 	}
 	n := 0
 	start := time.Now()
+	if prop == "C16" || prop == "" {
+		for i := 0; i < 4*iters; i++ {
+			joinRace(i)
+			n++
+		}
+		if prop == "C16" {
+			fmt.Printf("racepass: %d harness runs in %.1fs, no race reported\n", n, time.Since(start).Seconds())
+			return
+		}
+	}
 	if prop == "C05" || prop == "C18" || prop == "" {
 		for kind := range directQueries {
 			for i := 0; i < iters; i++ {
